@@ -271,12 +271,17 @@ func contextRefName(contextOfCall protoreflect.Descriptor, refElement protorefle
 	if contextOfCall.ParentFile().Package() != refElement.ParentFile().Package() {
 		// if the thing the field references is in a different package, then the
 		// full reference is used
-		return string(refElement.FullName()), nil
+		fullName := string(refElement.FullName())
+		if packageNameCaptured(contextOfCall, fullName) {
+			return "." + fullName, nil
+		}
+		return fullName, nil
 	}
 
 	refPath := pathToPackage(refElement)
 	contextPath := pathToPackage(contextOfCall)
 
+	stripped := 0
 	for i := 0; i < len(contextPath); i++ {
 		// the name of the element itself is never stripped, a reference to
 		// the enclosing message (a recursive type) is printed by name.
@@ -284,9 +289,74 @@ func contextRefName(contextOfCall protoreflect.Descriptor, refElement protorefle
 			break
 		}
 		refPath = refPath[1:]
+		stripped++
+	}
+
+	// The parser looks the first part of a relative name up in the innermost
+	// scope first. When a scope between here and the one the name is relative
+	// to declares a type of that name, it would find that one.
+	if nameShadowed(contextOfCall, len(contextPath)-stripped, refPath[0]) {
+		return "." + string(refElement.FullName()), nil
 	}
 
 	return strings.Join(refPath, "."), nil
+}
+
+// nameShadowed reports whether one of the innermost 'levels' scopes around
+// the context declares a nested message or enum called name.
+func nameShadowed(context protoreflect.Descriptor, levels int, name string) bool {
+	for scope := context; levels > 0 && scope != nil; scope, levels = scope.Parent(), levels-1 {
+		msg, ok := scope.(protoreflect.MessageDescriptor)
+		if !ok {
+			continue
+		}
+		if msg.Messages().ByName(protoreflect.Name(name)) != nil || msg.Enums().ByName(protoreflect.Name(name)) != nil {
+			return true
+		}
+	}
+	return false
+}
+
+// packageNameCaptured reports whether the first part of a full name from
+// another package means something else when looked up from the context: a
+// nested type of an enclosing message, or a type or (sub-)package found under
+// the file's own package or one of its parents.
+func packageNameCaptured(context protoreflect.Descriptor, fullName string) bool {
+	first, _, _ := strings.Cut(fullName, ".")
+	if nameShadowed(context, len(pathToPackage(context)), first) {
+		return true
+	}
+	file := context.ParentFile()
+	parts := strings.Split(string(file.Package()), ".")
+	for i := len(parts); i > 0; i-- {
+		candidate := strings.Join(parts[:i], ".") + "." + first
+		if declaresName(file, candidate) {
+			return true
+		}
+		imports := file.Imports()
+		for idx := 0; idx < imports.Len(); idx++ {
+			if declaresName(imports.Get(idx).FileDescriptor, candidate) {
+				return true
+			}
+		}
+	}
+	return false
+}
+
+// declaresName reports whether name is the file's package, one of its parent
+// packages, or a top level message, enum or service of the file.
+func declaresName(file protoreflect.FileDescriptor, name string) bool {
+	pkg := string(file.Package())
+	if pkg == name || strings.HasPrefix(pkg, name+".") {
+		return true
+	}
+	short, ok := strings.CutPrefix(name, pkg+".")
+	if !ok || strings.Contains(short, ".") {
+		return false
+	}
+	return file.Messages().ByName(protoreflect.Name(short)) != nil ||
+		file.Enums().ByName(protoreflect.Name(short)) != nil ||
+		file.Services().ByName(protoreflect.Name(short)) != nil
 }
 
 func pathToPackage(refElement protoreflect.Descriptor) []string {
